@@ -931,6 +931,18 @@ fn fuzz_wires_of(ctx: &mut Ctx, v: &J) {
     }
 }
 
+/// `run_vector` with every panic of the code under test turned into data: the judges call the crate through `Machine::step`,
+/// which catches panics, but some compare through direct calls (re-encoding, Value-level conversions); a panic there must not
+/// take the harness down.  It is reported like any other panic: a mismatch "panic" of the vector's property.
+pub fn run_vector_guarded(ctx: &mut Ctx, v: &J) {
+    let r = catch_unwind(AssertUnwindSafe(|| run_vector(ctx, v)));
+    if r.is_err() {
+        let p = main_prop(v);
+        let p = if ctx.prop == "C01" { "C01".to_string() } else { p };
+        ctx.mismatch(&p, v, "panic", json!({"where": "a direct call of the crate while judging this vector (not a machine step)"}));
+    }
+}
+
 pub fn run_vector(ctx: &mut Ctx, v: &J) {
     fuzz_wires_of(ctx, v);
     ctx.vectors += 1;
